@@ -75,7 +75,7 @@ theorem trees_init_go_spec (ok : CfgOk c) (cnt i : Nat) (hi : i + cnt = c.ntrees
 /-- **`Trees::new` establishes the upper invariant** (nothing hidden, no reservation). -/
 theorem trees_init_spec (ok : CfgOk c) (m : Mem) (inv : LowerInv c m) (hsz : m.trees.size = c.ntrees)
     (hss : m.slots.size = c.nslots) (habs : ∀ s, SlotAbsent m s) :
-    Runs m (Trees.init c) (fun _ m' => UpperInv0 c (fun _ => False) m' ∧ SameAlloc m m') := by
+    Runs m (Trees.init c) (fun _ m' => UpperInv0 c (fun _ => 0) m' ∧ SameAlloc m m') := by
   unfold Trees.init
   apply Runs.mono (trees_init_go_spec ok c.ntrees 0 (by omega) m inv hsz)
   rintro _ m' ⟨same, hslots, hsize, _, htrees⟩
@@ -97,14 +97,9 @@ theorem trees_init_spec (ok : CfgOk c) (m : Mem) (inv : LowerInv c m) (hsz : m.t
     slotInj := by intro s s' l l' hl _ hp; rw [habs' s l hl] at hp; cases hp
     slotNotR := by intro s l hl hp; rw [habs' s l hl] at hp; cases hp
     resSlot := by intro i t ht hr; rw [htree i t ht] at hr; cases hr
-    counterLe := by
+    counter := by
       intro i t ht
-      rw [htree i t ht, slotFree_zero_of_absent m' _ i habs', hfree]
-      exact Nat.le_refl _
-    counterEq := by
-      intro i t ht _
-      rw [htree i t ht, slotFree_zero_of_absent m' _ i habs', hfree]
-      rfl }
+      rw [htree i t ht, slotFree_zero_of_absent m' _ i habs', hfree]; rfl }
 
 /-! ### every sequential history -/
 
@@ -137,7 +132,7 @@ def runCalls (c : Cfg) : List Call → Prog Unit
   | x :: xs => do x.prog c; runCalls c xs
 
 /-- one call keeps the invariant (for some set of hidden trees) and never panics -/
-theorem call_safe (ok : CfgOk c) (H : Nat → Prop) (m : Mem) (inv : UpperInv0 c H m) (x : Call) (hx : x.valid c) :
+theorem call_safe (ok : CfgOk c) (H : Nat → Nat) (m : Mem) (inv : UpperInv0 c H m) (x : Call) (hx : x.valid c) :
     Runs m (x.prog c) (fun _ m' => ∃ H', UpperInv0 c H' m') := by
   cases x with
   | get frame r =>
@@ -183,7 +178,7 @@ theorem call_safe (ok : CfgOk c) (H : Nat → Prop) (m : Mem) (inv : UpperInv0 c
 
 /-- **Every sequential history of valid-parameter calls** from a state satisfying the upper
     invariant runs to completion without a panic and ends in a state satisfying the invariant. -/
-theorem calls_safe (ok : CfgOk c) (calls : List Call) (hvalid : ∀ x ∈ calls, x.valid c) (H : Nat → Prop) (m : Mem)
+theorem calls_safe (ok : CfgOk c) (calls : List Call) (hvalid : ∀ x ∈ calls, x.valid c) (H : Nat → Nat) (m : Mem)
     (inv : UpperInv0 c H m) :
     Runs m (runCalls c calls) (fun _ m' => ∃ H', UpperInv0 c H' m') := by
   induction calls generalizing H m with
